@@ -796,6 +796,10 @@ func main() {
 			c.Count("R:random")
 		}
 
+		shm := transx.ShmAvailable(dir)
+		if !shm {
+			c.Note("/dev/shm is not a separate writable device: cross-device renames are only injected")
+		}
 		// T: end to end through receiver, store and transition.
 		for i := 0; i < c.Size(250, 8000); i++ {
 			g := &transx.Gen{R: c.R}
@@ -848,7 +852,38 @@ func main() {
 				receive(st, root, files, msgs)
 				return nil
 			}
+			// Cross-device moves: the first rename of a staged file reports EXDEV
+			// (injected, or for real with the store on /dev/shm), sometimes with a
+			// further failure inside the fallback.
 			var faults []transx.Fault
+			if names := transx.FileCreationNames(sc.Plan); len(names) > 0 && c.R.Chance(1, 3) {
+				if sc.Cfg.FileMode == 0 {
+					sc.Cfg.FileMode = 0o600
+				}
+				if shm && c.R.Chance(1, 2) {
+					sc.ShmStaging = true
+					label += ":real-xdev"
+					c.Count("T:real-cross-device")
+				} else {
+					for _, n := range names {
+						if c.R.Chance(2, 3) {
+							faults = append(faults, transx.Fault{Op: "rename", Name: n, K: 0, Act: 'x'})
+						}
+					}
+					label += ":exdev"
+					c.Count("T:injected-exdev")
+				}
+				switch c.R.Intn(6) {
+				case 0:
+					faults = append(faults, transx.Fault{Op: "mktemp", Name: transx.TmpPattern, K: 0, Act: 'f'})
+				case 1:
+					faults = append(faults, transx.Fault{Op: "chmod", Name: transx.TmpPattern + "0", K: 0, Act: 'f'})
+				case 2:
+					faults = append(faults, transx.Fault{Op: "rename", Name: names[c.R.Intn(len(names))], K: 1, Act: 'f'})
+				case 3:
+					faults = append(faults, transx.Fault{Op: "mktemp", Name: transx.TmpPattern, K: 0, Act: 'c'})
+				}
+			}
 			cs, err := transx.Build(sc, dir, faults)
 			if err != nil {
 				c.Case("harness-error", "harness-error: "+err.Error(), "class=harness-error "+err.Error(), "")
@@ -859,6 +894,82 @@ func main() {
 			}
 			c.Count("T:scenario")
 			transition(cs, label)
+			if cs.Cleanup != nil {
+				cs.Cleanup()
+			}
+		}
+
+		// T, large files: a cross-device copy that is cancelled in the middle. The
+		// copy polls for cancellation at write number interval+1 (1024 writes of
+		// 32 KiB), so only a file larger than 32 MiB can be preempted; a preempted
+		// copy must not leave a truncated file at the planned path.
+		const preemptBytes = 1024 * 32 * 1024
+		type bigVariant struct {
+			label  string
+			size   int
+			swap   bool
+			cancel *transx.Fault
+			real   bool
+		}
+		mktempCancel := &transx.Fault{Op: "mktemp", Name: transx.TmpPattern, K: 0, Act: 'c'}
+		variants := []bigVariant{
+			{"preempted-create", preemptBytes + 1 + c.R.Intn(5000), false, mktempCancel, false},
+			{"boundary-not-polled", preemptBytes, false, mktempCancel, false},
+			{"preempted-swap", preemptBytes + 7 + c.R.Intn(5000), true, &transx.Fault{Op: "lstat", Name: "old", K: 0, Act: 'c'}, false},
+		}
+		if shm {
+			variants = append(variants, bigVariant{"preempted-create-real-xdev", preemptBytes + 1 + c.R.Intn(5000), false, mktempCancel, true})
+		}
+		if c.Thorough() {
+			for k := 0; k < 4; k++ {
+				variants = append(variants,
+					bigVariant{"preempted-create", preemptBytes + 1 + c.R.Intn(1 << 20), false, mktempCancel, shm && k%2 == 1},
+					bigVariant{"complete-no-cancel", preemptBytes + 1 + c.R.Intn(1 << 16), k%2 == 0, nil, false},
+					bigVariant{"preempted-swap", preemptBytes + 1 + c.R.Intn(1 << 20), true, mktempCancel, shm && k%2 == 0})
+			}
+		}
+		for _, v := range variants {
+			data := make([]byte, v.size)
+			fill := byte(1 + c.R.Intn(250))
+			for i := range data {
+				data[i] = fill
+			}
+			digest := transx.Digest(data)
+			oldData := []byte{1, 2, 3}
+			sc := &transx.Scenario{
+				Cfg: transx.Cfg{SL: 'r', FileMode: 0o644, DirMode: 0o755, RootName: "root"},
+				F0: &transx.Node{Kind: 'd', Perm: 0o755, Kids: map[string]*transx.Node{
+					"keep": {Kind: 'f', Perm: 0o644, Mtime: 1, Data: []byte{9}},
+					"old":  {Kind: 'f', Perm: 0o644, Mtime: 2, Data: oldData},
+				}},
+				Contents: map[string][]byte{hx.Hex(digest): data}, Unstaged: map[string]bool{}, ProvideErr: map[string]bool{},
+				UseStore: true, Derived: true, StoreMax: 64 << 20, ShmStaging: v.real,
+			}
+			name := "big"
+			if v.swap {
+				name = "old"
+				sc.Plan = []*core.Change{{Path: "old", Old: &core.Entry{Kind: core.EntryKind_File, Digest: transx.Digest(oldData)},
+					New: &core.Entry{Kind: core.EntryKind_File, Digest: digest}}}
+			} else {
+				sc.Plan = []*core.Change{{Path: "big", New: &core.Entry{Kind: core.EntryKind_File, Digest: digest}}}
+			}
+			var faults []transx.Fault
+			if !v.real {
+				faults = append(faults, transx.Fault{Op: "rename", Name: name, K: 0, Act: 'x'})
+			}
+			if v.cancel != nil {
+				faults = append(faults, *v.cancel)
+			}
+			cs, err := transx.Build(sc, dir, faults)
+			if err != nil {
+				c.Case("harness-error", "harness-error: "+err.Error(), "class=harness-error "+err.Error(), "")
+				continue
+			}
+			c.Count("T:large:" + v.label)
+			transition(cs, "T:large:"+v.label)
+			if cs.Cleanup != nil {
+				cs.Cleanup()
+			}
 		}
 	})
 }
